@@ -20,7 +20,7 @@ EXN = {'ValueError', 'KeyError', 'TypeError', 'AttributeError', 'AssertionError'
 
 
 class Case:
-    def __init__(self, name, call, run, result, binders='', hyps=(), tactic=None, note=''):
+    def __init__(self, name, call, run, result, binders='', hyps=(), tactic=None, note='', alt_call=None):
         """name: lemma suffix; call: Gallina text of the model call;
         run: thunk executing the real code on symbolic inputs;
         result: function (emitter, python result) -> Gallina text of the model value;
@@ -28,6 +28,7 @@ class Case:
         hyps: extra hypotheses (Gallina text)"""
         self.name, self.call, self.run, self.result = name, call, run, result
         self.binders, self.hyps, self.tactic, self.note = binders, list(hyps), tactic, note
+        self.alt_call = alt_call   # model call of the 'spec' variant of a known finding (diagnostic file only)
 
 
 def run_case(case):
@@ -105,7 +106,7 @@ def lemma_text(case, out, leaves, diagnostic=False):
     name = 'br_' + case.name
     if out['status'] != 'ok':
         stmt = 'False'
-        comment = '(* TRACE ESCAPE in %s: %s *)\n' % (case.name, out.get('error', '').replace('*)', '* )'))
+        comment = '(* TRACE ESCAPE / HISTORY DEPENDENCE in %s: %s *)\n' % (case.name, out.get('error', '').replace('*)', '* )'))
     else:
         comment = ''
         hyps = case.hyps + out['hyps']
@@ -123,6 +124,26 @@ def emit_family(fam, imports, cases, leaves_fn, extra_header=''):
     """imports: list of module names (PV-qualified); leaves_fn: () -> list of leaf names"""
     outs = [run_case(c) for c in cases]
     leaves = sorted(leaves_fn())
+    # second pass on the same process state with renamed leaves: the trace of every case must be the
+    # same expression up to the renaming (no hidden state keyed on names, identities or call order)
+    import objs, re
+    objs.ALT[0] = True
+    try:
+        for c, o in zip(cases, outs):
+            if o['status'] != 'ok':
+                continue
+            o2 = run_case(c)
+            strip = lambda t: re.sub(r'\b(\w+?)_b\b', r'\1', t)
+            names = set(objs.all_vars())
+            stale = [] if o2['status'] != 'ok' else [
+                t for t in re.findall(r'\b\w+\b', o2['rhs'] + ' '.join(o2['hyps']))
+                if t in names and not t.endswith('_b')]
+            if stale or o2['status'] != 'ok' or strip(o2['rhs']) != o['rhs'] or [strip(h) for h in o2['hyps']] != o['hyps']:
+                o['status'] = 'history'
+                o['error'] = ('the trace of this case changed when it was repeated later in the same process with '
+                              'different symbolic leaves (hidden state / cache): ' + (o2.get('error') or strip(o2.get('rhs', ''))[:300]))
+    finally:
+        objs.ALT[0] = False
     for diagnostic in (False, True):
         lines = ['(* GENERATED by tracer/gen.py from the current /repo sources — do not edit *)\n',
                  'From Coq Require Import ZArith List Bool PrimFloat.\n',
@@ -130,6 +151,11 @@ def emit_family(fam, imports, cases, leaves_fn, extra_header=''):
                  'Import ListNotations.\n', extra_header, '\nSection Bridges.\nContext (N : NumOps).\n\n']
         for c, o in zip(cases, outs):
             lines.append(lemma_text(c, o, leaves, diagnostic))
+            if diagnostic and c.alt_call:
+                import copy as _copy
+                c2 = _copy.copy(c)
+                c2.name, c2.call = c.name + '__alt', c.alt_call
+                lines.append(lemma_text(c2, o, leaves, True))
         lines.append('End Bridges.\n')
         text = ''.join(lines)
         path = os.path.join(COQ_GEN, ('Diag_%s.v' if diagnostic else 'Trace_%s.v') % fam)
